@@ -116,7 +116,7 @@ ImplUnionCA(A, B, x) ==
 ImplCA(A, B, x) ==
     CASE A.k = "any" -> TRUE                                             \* AnyValue.can_assign (value.py:424)
       [] A.k = "known" ->                                                \* KnownValue.can_assign (value.py:582)
-            IF B.k = "known" /\ A.o = B.o THEN TRUE ELSE ImplBaseCA(A, B, x)
+            IF B.k = "known" /\ KVEq(A.o, B.o) THEN TRUE ELSE ImplBaseCA(A, B, x)
       [] A.k = "typed" -> ImplTypedCA(A, B, x)
       [] A.k = "newtype" ->                                              \* NewTypeValue.can_assign (value.py:991)
             IF B.k = "newtype" THEN A.n = B.n
@@ -203,6 +203,19 @@ Mentions(T, cls) ==
       [] OTHER -> FALSE
 Dev_EnumMetaclassProtocol(A, B) == Mentions(A, "Iterable") /\ Mentions(B, "Color")
 
+\* Known deviation: KnownValue equality compares the outer type only ((1,) == (1.0,) == (True,)), so hashable sibling
+\* literals that are equal in Python but differ in element types are merged by unite_values when a literal container is
+\* turned into a SequenceValue / DictIncompleteValue, and only the first one is checked against the element type.
+RECURSIVE HasMergedSiblings(_)
+Elems(o) == IF o.c = "dict" THEN [i \in 1..Len(o.items) |-> o.items[i].val] ELSE o.items
+IsHashableObj(o) == o.c \notin {"list", "dict", "set"}
+HasMergedSiblings(o) ==
+    LET es == Elems(o)
+    IN \/ \E i \in 1..Len(es) : \E j \in 1..Len(es) :
+            i # j /\ es[i] # es[j] /\ KVEq(es[i], es[j]) /\ IsHashableObj(es[i]) /\ IsHashableObj(es[j])
+       \/ \E i \in 1..Len(es) : HasMergedSiblings(es[i])
+Dev_MergedSiblingLiterals(o) == HasMergedSiblings(o)
+
 C03_Exact(A, o) == ImplCA(A, Known(o), FALSE) = Member(o, A)
 C04_Sound(A, B) == (ImplCA(A, B, FALSE) /\ ~Lenient(A, B) /\ ~Dev_EnumMetaclassProtocol(A, B)) => \A o \in Objects : Member(o, B) => Member(o, A)
 C04_Refl(A) == ImplCA(A, A, FALSE)
@@ -247,6 +260,7 @@ InvUnionLeft == Done => C04_UnionLeft(ta, tb)
 InvUnionRight == Done => C04_UnionRight(ta, tb)
 InvAnyBoth == stage = "b" => C04_AnyBoth(ta)
 InvExcludeAnyMonotone == Done => C04_ExcludeAnyMonotone(ta, tb)
-InvObjExact == stage = "doneobj" => C03_Exact(ta, ob)
-InvLiteralExact == (stage = "b" /\ C03Domain(ta)) => \A o \in Objects : C03_Exact(ta, o)
+InvObjExact == stage = "doneobj" => (C03_Exact(ta, ob) \/ Dev_MergedSiblingLiterals(ob))
+InvObjExactStrict == stage = "doneobj" => C03_Exact(ta, ob)
+InvLiteralExact == (stage = "b" /\ C03Domain(ta)) => \A o \in Objects : (C03_Exact(ta, o) \/ Dev_MergedSiblingLiterals(o))
 =============================================================================
